@@ -555,6 +555,66 @@ func (cr *checkRun) report() int {
 	for _, n := range cr.notes {
 		notes[n] = true
 	}
+	// thorough tier: the trusted specs this run relied on are tested against the real functions (conform.go);
+	// a spec the real code contradicts is an undischarged obligation of the property (the proof rests on it)
+	var conformSummary map[string]interface{}
+	if cr.tier == "thorough" && os.Getenv("VERIF_NOCONFORM") == "" {
+		var keys []string
+		for k := range trusted {
+			if i := strings.Index(k, " ["); i > 0 {
+				key := k[:i]
+				if j := strings.Index(key, " ("); j > 0 {
+					key = key[:j]
+				}
+				if ct := e.specs.contracts[key]; ct != nil && ct.Trusted {
+					keys = append(keys, key)
+				}
+			}
+		}
+		sort.Strings(keys)
+		tested, inputs, held, inconcl := 0, 0, 0, 0
+		var lines []interface{}
+		var jobs []func() *conformReport
+		for i, k := range keys {
+			if i > 0 && keys[i-1] == k {
+				continue
+			}
+			if _, cont := e.conformPrepare(k, e.specs.contracts[k], 80); cont != nil {
+				jobs = append(jobs, cont)
+			}
+		}
+		reps := make([]*conformReport, len(jobs))
+		sem := make(chan struct{}, 6)
+		done := make(chan struct{})
+		for i, j := range jobs {
+			i, j := i, j
+			go func() { sem <- struct{}{}; reps[i] = j(); <-sem; done <- struct{}{} }()
+		}
+		for range jobs {
+			<-done
+		}
+		for _, r := range reps {
+			if r.Skipped != "" {
+				continue
+			}
+			tested++
+			inputs += r.Inputs
+			held += r.ClausesHeld
+			inconcl += r.Inconclusive
+			st := "discharged"
+			clause := fmt.Sprintf("trusted spec %s [%s] agrees with the real function on %d generated inputs (%d returned, %d panicked; %d clause checks held, %d inconclusive) - bounded test of an assumption, not a proof", r.Spec, r.Source, r.Inputs, r.Returned, r.Panicked, r.ClausesHeld, r.Inconclusive)
+			if len(r.Mismatches) > 0 {
+				st = "failed"
+				clause = fmt.Sprintf("trusted spec %s [%s] is CONTRADICTED by the real function: %s", r.Spec, r.Source, strings.Join(r.Mismatches, " | "))
+			}
+			all = append(all, &Obligation{Name: "spec-conformance:" + r.Spec, Kind: "spec-conformance", Status: st, Solver: "go test + z3-new", Clause: clause})
+			if len(lines) < 40 {
+				lines = append(lines, map[string]interface{}{"spec": r.Spec, "inputs": r.Inputs, "panicked": r.Panicked, "held": r.ClausesHeld, "inconclusive": r.Inconclusive, "mismatches": len(r.Mismatches)})
+			}
+		}
+		conformSummary = map[string]interface{}{"label": "bounded (generated inputs per spec stated), never counted as proved", "trusted_specs_used": len(keys), "tested_against_real_functions": tested, "inputs_run": inputs, "clause_checks_held": held, "clause_checks_inconclusive": inconcl, "per_spec": lines,
+			"not_testable": "specs of interface methods (keepers, message servers, stores), of functions taking structs/pointers/interfaces, and clauses over uninterpreted vocabulary"}
+	}
 	specErrs := 0
 	for m := range e.specErrors {
 		fmt.Println("STALE-CONTRACT:", m)
@@ -671,6 +731,7 @@ func (cr *checkRun) report() int {
 		"undischarged":                         failed,
 		"notes":                                keys(notes),
 		"unsupported_constructs":               keys(unsupported),
+		"trusted_spec_conformance":             conformSummary,
 		"explanation":                          "Each obligation is one SMT query (negated goal under the function's passive-form assumptions) generated from go/ssa of /repo's working tree; 'discharged' counts queries answered unsat (sat for covers). Integers are mathematical with Go wrap-around applied at every arithmetic instruction; math.Int is a mathematical integer bounded by 2^256.",
 	}
 	ev := map[string]interface{}{
